@@ -6,14 +6,15 @@ import vlib
 ALL = ["Create", "Savepoint", "OpAck", "SrAck", "BadAck", "Write", "Delete", "Notify", "Restart"]
 GOOD = ["Create", "OpAck", "SrAck", "Write", "Delete", "Notify", "Restart"]          # no bad acks, no savepoints
 PUBL = ["Create", "Savepoint", "OpAck", "SrAck", "Write", "Delete", "Notify", "Restart"]
-DEVS = ["Pre_DupSrAppended", "Pre_ListLexical", "Pre_LateClobbers", "Pre_NotifyUnordered", "Pre_RetainDropsNewer"]
-INVARIANTS = ["TypeOK", "OnlyWhenAllAcked", "PublishedWhole", "AtMostOnePending", "NoBad", "NewestSurvives",
+DEVS = ["Pre_DupSrAppended", "Pre_ListLexical", "Pre_LateClobbers", "Pre_NotifyUnordered", "Pre_RetainDropsNewer",
+        "Pre_AckUnlocked", "Pre_ForwardConcurrent"]
+INVARIANTS = ["TypeOK", "OnlyWhenAllAcked", "PublishedWhole", "PublishedOnce", "AtMostOnePending", "NoBad", "NewestSurvives",
               "RetainNamesNewest", "OperatorsKeepNewest", "CurrentIsNewest"]
 
 
 def consts(**kw):
     c = dict(Ops={"o1"}, Srs={"s1"}, XOp="ox", XSr="sx", StartId=0, IdSpan=3, MaxLen=8, MaxRestarts=1, MaxInFlight=2,
-             Acts=set(ALL), TokCounts="@{1}", MaxTok=3, AckOffsets="@{0,1,2}", DirMode=False)
+             Acts=set(ALL), TokCounts="@{1}", MaxTok=3, AckOffsets="@{0,1,2}", DirMode=False, Burst=False, RpcMode=False)
     for d in DEVS:
         c[d] = False
     c.update(kw)
@@ -105,13 +106,86 @@ def dirstates(c, start, span):
     return r.behaviours, cs
 
 
-def replay(c, behs, cs, label, **extra):
+def replay(c, behs, cs, label, harness="store", **extra):
+    """harness "store": harness/cmd/store (the real snapshots.Store); "storejob": harness/cmd/storejob (the real jobs.Job)"""
     if not behs:
         raise vlib.MachineryError("no behaviours generated for " + label)
-    payload = dict(property=c.prop, seed=c.seed, config=harness_cfg(cs, **extra), behaviours=behs)
-    res = vlib.run_harness("store", payload, timeout=3000)
+    payload = dict(property=c.prop, seed=c.seed, config=harness_cfg(cs, Harness=harness, **extra), behaviours=behs)
+    res = vlib.run_harness(harness, payload, timeout=3000)
     c.add_harness(res, payload, "%s %s" % (label, jc(cs)))
+    res["_payload"] = payload
     return res
+
+
+API_STEPS = ("Create", "OpAck", "SrAck", "PublishWrite")   # steps that need the store's lock
+
+
+def window_steps(beh):
+    """indices of the API calls issued while an acknowledgement is between its bookkeeping and AckFinish (Pre_AckUnlocked)"""
+    return [i for i, s in enumerate(beh) if i > 0 and beh[i - 1]["fin"] and s["a"] in API_STEPS]
+
+
+def ack_windows(c, label, per_prefix=2, **kw):
+    """Schedules only a store that releases its lock inside an acknowledgement admits (Pre_AckUnlocked): a transition cover of
+    that design's graph, reduced to the behaviours in which another call arrives while a completing acknowledgement is still
+    inside finishSnapshot. Behaviours are cut after the second such call; at most `per_prefix` continuations are kept per
+    distinct history up to the first one (the real code serialises there, which costs a quiet period per behaviour)."""
+    behs, cs = cover(c, label, Pre_AckUnlocked=True, **kw)
+    out, seen, per = [], set(), {}
+    for b in behs:
+        ws = window_steps(b)
+        if not ws:
+            continue
+        b = b[:ws[1] + 1] if len(ws) > 1 else b
+        key = json.dumps(b, sort_keys=True)
+        first = json.dumps(b[:ws[0] + 1], sort_keys=True)
+        if key in seen or per.get(first, 0) >= per_prefix:
+            continue
+        seen.add(key)
+        per[first] = per.get(first, 0) + 1
+        out.append(b)
+    if not out:
+        raise vlib.MachineryError("no behaviour with a call inside an acknowledgement's window generated")
+    return out, dict(cs, Pre_AckUnlocked=False)   # not a listed finding: the code must serialise or stay within the property
+
+
+def first_overtaking_send(beh):
+    """index of the first NotifySend that is not the oldest waiting notification (None: in order)"""
+    pending = []
+    for i, s in enumerate(beh):
+        if s["a"] == "NotifySend" and pending and s["id"] != pending[0]:
+            return i
+        pending = list(s["nt"])
+    return None
+
+
+def per_prefix(behs, cut, keep=2):
+    """behaviours for which cut(b) is an index, at most `keep` (the longest) per distinct history b[:cut(b)+1]"""
+    groups = {}
+    for b in behs:
+        i = cut(b)
+        if i is None:
+            continue
+        groups.setdefault(json.dumps(b[:i + 1], sort_keys=True), []).append(b)
+    out = []
+    for k in groups:   # dict order = generation order: deterministic
+        out += sorted(groups[k], key=len, reverse=True)[:keep]
+    return out
+
+
+def replay_file(c, path):
+    payload = json.load(open(path))
+    payload["property"] = c.prop
+    res = vlib.run_harness(payload.get("config", {}).get("Harness", "store"), payload)
+    c.add_harness(res, payload, "replay " + path)
+
+
+def first_concurrent_forward(beh):
+    """index of the first Forward issued while a request of an earlier one is still in flight (None: never)"""
+    for i, s in enumerate(beh):
+        if s["a"] == "Forward" and s["busy"]:
+            return i
+    return None
 
 
 def count(behs, pred):
